@@ -63,7 +63,7 @@ func runC09(c *vkit.Ctx, lab *Lab, r *rand.Rand, i int) {
 	}
 	own := BuildOwned(rec)
 	sd := lab.Seed(r, own, LabOpts{Stale: true, Shuffle: true, Hostile: true})
-	res := prog.RunChild(RunOpt{PkgDir: lab.PkgDir, Scenario: lc.withSkips(), Count: lc.Count, Update: lc.Update, CI: lc.CI})
+	res := prog.RunChild(RunOpt{PkgDir: lab.PkgDir, Scenario: lc.withSkips(), Count: lc.Count, Extra: lc.Flags, Update: lc.Update, CI: lc.CI})
 	in := labSample(lc)
 	in["ci"] = lc.CI
 	if !res.Complete {
